@@ -605,6 +605,18 @@ func (se *specEnv) call(n *ast.CallExpr) specVal {
 				se.fail("visited() outside a map range loop")
 			}
 			return specVal{V: Select(it.Visited, k), T: boolT}
+		case "ref":
+			// the object reference behind a pointer or an interface value
+			a := se.eval(n.Args[0])
+			switch v := se.rval(a).(type) {
+			case *IfaceV:
+				return specVal{V: v.Pay, T: untypedInt}
+			case *PtrV:
+				return specVal{V: se.x.ptrTerm(v), T: untypedInt}
+			case Term:
+				return specVal{V: v, T: untypedInt}
+			}
+			se.fail("ref() of %s", exprString(n.Args[0]))
 		case "ptrnonnil":
 			// an interface value that is non-nil and does not hold a typed nil pointer
 			a := se.eval(n.Args[0])
@@ -844,7 +856,7 @@ func (x *exec) nameType(fr *Frame, name string) types.Type {
 		for _, in := range b.Instrs {
 			switch v := in.(type) {
 			case *ssa.DebugRef:
-				if id, ok := v.Expr.(*ast.Ident); ok && id.Name == name {
+				if id, ok := v.Expr.(*ast.Ident); ok && id.Name == name && identOf(v) != "" {
 					if v.IsAddr {
 						return deref(v.X.Type())
 					}
